@@ -277,7 +277,7 @@ func (in *Interp) blobDecode(codec string, b value, dst value) value {
 	src, sok := fresh.(structure)
 	cur, cok := (*p).(structure)
 	if !isStruct || !sok || !cok {
-		if codec == "gob" {
+		if codec != "proto" {
 			if z, k := in.zeroKnown(fresh, rec.t); k && z {
 				return iface{}
 			}
@@ -290,14 +290,14 @@ func (in *Interp) blobDecode(codec string, b value, dst value) value {
 		if !exportedField(f) {
 			continue
 		}
-		if codec == "gob" {
+		if codec != "proto" {
 			z, k := in.zeroKnown(src[i], f.Type())
 			if k && z {
 				continue // not transmitted
 			}
 			if !k {
 				if dz, dk := in.zeroKnown(cur[i], f.Type()); !(dk && dz) {
-					in.unsupported("gob.Decode: field " + f.Name() + " may or may not be transmitted and the destination field is not zero")
+					in.unsupported(codec + ".Decode: field " + f.Name() + " may or may not be transmitted and the destination field is not zero")
 				}
 			}
 		}
@@ -339,10 +339,16 @@ func init() {
 			return in.blobDecode(codec, a[0], a[1])
 		})
 	}
-	// encoding/json.Marshal: opaque blob as well (its consumers in scope are log lines and raft ConfChange contexts that
-	// are only passed through). json.Unmarshal of such a blob is NOT provided: JSON does not round-trip Go values.
+	// encoding/json.Marshal: opaque blob as well (consumers in scope: log lines, raft snapshot data and ConfChange
+	// contexts that are passed through). json.Unmarshal is provided only for such a blob and only into the SAME Go type
+	// (anything else is unsupported => inconclusive): for plain data types (integers, strings, []byte, nested structs,
+	// pointers, slices) JSON round-trips the exported fields; absent (omitempty) fields keep the destination's value,
+	// which is treated like gob's zero-field rule above.
 	reg("encoding/json.Marshal", func(in *Interp, c *frame, fn *ssa.Function, a []value) value {
 		return in.blobEncode("json", a[0])
+	})
+	reg("encoding/json.Unmarshal", func(in *Interp, c *frame, fn *ssa.Function, a []value) value {
+		return in.blobDecode("json", a[0], a[1])
 	})
 	reg(enc+"proto.Size", func(in *Interp, c *frame, fn *ssa.Function, a []value) value {
 		t := in.nondetInt("$proto.Size", basicOf(types.Typ[types.Int]))
